@@ -579,11 +579,9 @@ mod fp61bit {
             let val = (val & PRIME) + (val >> Self::BITS);
             // another round if val ended up being greater than PRIME
             let val = (val & PRIME) + (val >> Self::BITS);
-            if val == PRIME {
-                Self::ZERO
-            } else {
-                Self(val as <Self as SharedValue>::Storage)
-            }
+            // after two folds val can still be as large as PRIME + 1
+            let val = if val >= PRIME { val - PRIME } else { val };
+            Self(val as <Self as SharedValue>::Storage)
         }
     }
 
